@@ -1,6 +1,7 @@
 import Litep2pVerif.Proofs.Notif.Inv2
 import Litep2pVerif.Proofs.Notif.Handle
 import Litep2pVerif.Proofs.Notif.Handshake
+import Litep2pVerif.Proofs.Node.Wiring
 /-!
 C11 — notification streams follow a strict open/close protocol towards the user.
 
@@ -700,3 +701,40 @@ end Handshake
 #print axioms handshake_stale_result_witness
 
 end Litep2pVerif.Notif
+
+/-! ## Wiring — what `Litep2p::new` hands over (coverage round `node`)
+
+Over the wiring model `Model/Node/Wiring.lean` (`Node.new c` = `Litep2p::new(ConfigBuilder…build())`), which is tied to
+the real `ConfigBuilder`/`Litep2p::new` by the `node` area: the adapter prints the ACTUAL registration record of a node built
+through the public API, the driver prints the model's, compared field by field on every run. -/
+namespace Litep2pVerif.Props.C11.Wiring
+open Litep2pVerif Litep2pVerif.Node
+
+/-- A configuration with every kind of protocol (used by the non-vacuity examples). -/
+def sample : Config :=
+  { keepAliveMs := some 600, limits := some (some 2, none), listen := [1, 2],
+    notif := [⟨"/n/a", 1024, "0102", ["/n/old"], 'a'⟩],
+    rr := [⟨"/r/a", 256, 800, ["/r/old"], none⟩, ⟨"/r/b", 64, 800, [], some 1⟩],
+    user := [⟨"/u/a", .varint none⟩], kad := [⟨[], none⟩], ping := some 1, identify := true, bitswap := true,
+    known := some [(0, [.listen 0, .closed, .quic, .wrongPeer 0, .noPeer 0])] }
+
+/-- Every configured notification protocol is registered under its own name with its OWN codec and maximum notification
+size, its own fallback names, as a keep-alive protocol — and no other registration bears that name. -/
+theorem notification_registered_with_own_codec_and_size (c : Config) (w : Wired) (h : Node.new c = .ok w) :
+    ∀ p ∈ (build c).notif, ∃ r ∈ w.regs, r.name = p.name ∧ r.codec = .varint (some p.max) ∧ r.fallback = p.fallback ∧
+      r.keepAlive = true ∧ ∀ r' ∈ w.regs, r'.name = p.name → r' = r := by
+  intro p hp
+  obtain ⟨hreg, _, rfl⟩ := wire_ok h
+  refine ⟨_, notif_mem_registrations _ hp, rfl, rfl, rfl, rfl, ?_⟩
+  intro r' hr' he
+  cases hr : registerAll [] (registrations (build c)) with
+  | none => exact absurd hr hreg
+  | some t => exact unique_by_name (registerAll_names hr).1 (notif_mem_registrations _ hp) hr' he
+
+example : ∃ w, Node.new sample = .ok w ∧
+    (w.regs.filter (fun r => r.name = "/n/a")).map (fun r => (r.codec, r.fallback)) = [(.varint (some 1024), ["/n/old"])] :=
+  ⟨_, rfl, by decide⟩
+
+end Litep2pVerif.Props.C11.Wiring
+
+#print axioms Litep2pVerif.Props.C11.Wiring.notification_registered_with_own_codec_and_size
